@@ -352,6 +352,9 @@ func (e *Engine) execGo(st *State, fr *Frame, x *ssa.Go) {
 		e.advance(st, fr)
 		return
 	}
+	if len(st.threads) >= 24 {
+		panic(pathEnd{kind: "limit", msg: "more than 24 goroutines on one path (unbounded goroutine creation?) at " + e.pos(x)})
+	}
 	nt := &Thread{ID: len(st.threads), Name: c.fn.Name()}
 	st.threads = append(st.threads, nt)
 	cur := st.cur
